@@ -93,6 +93,7 @@ class Link(base.BaseObject):
         """
         return tuple(self._vertices)
 
+    @base.invalidates_when_cut_short("_invalidate_neighbor_caches")
     def add_vertex(self, new: Vertex):
         """
         Adds a vertex to this link.
@@ -121,6 +122,7 @@ class Link(base.BaseObject):
                 # pylint: disable-next=protected-access
                 vert._qa_neighbors_invalidate()
 
+    @base.invalidates_when_cut_short("_invalidate_neighbor_caches")
     def unlink_from(self, kill: Vertex):
         """
         Remove the link association from the given vertex.
